@@ -4,6 +4,16 @@ package backend
 
 import (
 	"context"
+	"sync/atomic"
+
+	"github.com/kubewharf/kubebrain/pkg/backend/coder"
+	"github.com/kubewharf/kubebrain/pkg/backend/creator"
+	"github.com/kubewharf/kubebrain/pkg/backend/election"
+	"github.com/kubewharf/kubebrain/pkg/backend/retry"
+	"github.com/kubewharf/kubebrain/pkg/backend/scanner"
+	"github.com/kubewharf/kubebrain/pkg/backend/tso"
+	"github.com/kubewharf/kubebrain/pkg/metrics"
+	"github.com/kubewharf/kubebrain/pkg/storage"
 
 	proto "github.com/kubewharf/kubebrain-client/api/v2rpc"
 
@@ -19,6 +29,49 @@ const vPrefix = "/r"
 func vNewBackend(s *zzmodel.Store, base uint64, cache int) *backend {
 	b := NewBackend(s, Config{Prefix: vPrefix, EnableEtcdCompatibility: true, WatchCacheSize: cache}, zzmodel.NoMetrics{}).(*backend)
 	b.tso.Init(base)
+	return b
+}
+
+// vNewBackendTSO builds a backend exactly as NewBackend does, but with the revision generator
+// wrapped from the start (replacing b.tso after NewBackend has started its goroutines would be a
+// data race in native replays).
+func vNewBackendTSO(s *zzmodel.Store, base uint64, cache int, wrap func(tso.TSO) tso.TSO) *backend {
+	config := Config{Prefix: vPrefix, EnableEtcdCompatibility: true, WatchCacheSize: cache}
+	var metricCli metrics.Metrics = zzmodel.NoMetrics{}
+	var kv storage.KvStorage = s
+	config.complete()
+	normalCoder := coder.NewNormalCoder()
+	electionConfig := election.Config{Prefix: config.Prefix, Identity: config.Identity, Timeout: unaryRpcTimeout}
+	inner := tso.NewTSO()
+	inner.Init(base)
+	b := &backend{
+		kv:                    kv,
+		tso:                   wrap(inner),
+		coder:                 normalCoder,
+		creator:               creator.NewNaiveCreator(kv, normalCoder),
+		election:              election.NewResourceLockManager(electionConfig, kv),
+		scanner:               scanner.NewScanner(kv, normalCoder, config.getScannerConfig(), metricCli),
+		config:                config,
+		capacity:              config.WatchCacheSize,
+		watchEventsRingBuffer: make([]atomic.Value, watchersChanCapacity, watchersChanCapacity),
+		watchCache:            NewRing(config.WatchCacheSize),
+		watchChan:             make(chan []*proto.Event, watchersChanCapacity),
+		watcherHub: &WatcherHub{
+			subs:      make(map[chan []*proto.Event]struct{}),
+			metricCli: metricCli,
+		},
+		metricCli: metricCli,
+	}
+	asyncRetryConfig := retry.Config{
+		UnaryTimeout:  unaryRpcTimeout,
+		CheckInterval: checkInterval,
+		RetryInterval: retryInterval,
+		Tombstone:     tombStoneBytes,
+	}
+	b.asyncFifoRetry = retry.NewAsyncFifoRetry(b.coder, b.kv, b.metricCli, b.tso, b.getLatestInternalVal, b.notify, asyncRetryConfig)
+	go b.collectStorageWriteEvents()
+	go b.watcherHub.Stream(b.watchChan)
+	go b.asyncFifoRetry.Run(context.Background())
 	return b
 }
 
